@@ -12,3 +12,22 @@ package update
 //@   ensures result == updateVotes(c, height)
 //@   ensures forall i int :: 0 <= i && i < len(result) ==> result[i] != nil
 //@   modifies mapof(c.list)
+
+//@ func (*Update).get
+//@   trusted
+//@   ensures result == updateVotes(c, height)
+//@   ensures forall i int :: 0 <= i && i < len(result) ==> result[i] != nil
+//@   modifies mapof(c.list)
+
+//@ # a vote by pubkey for height exists iff pubkey occurs in some proposal's vote list (duplicate-vote gate, C20)
+//@ func (*Update).IsVoteExists
+//@   serves C20
+//@   let vs = updateVotes(c, height)
+//@   requires c != nil
+//@   ensures [thorough] found: result ==> exists a int, b int :: 0 <= a && a < len(vs) && 0 <= b && b < len(vs[a].Votes) && vs[a].Votes[b] == pubkey
+//@   ensures notfound: !result ==> forall a int, b int :: 0 <= a && a < len(vs) && 0 <= b && b < len(vs[a].Votes) ==> vs[a].Votes[b] != pubkey
+//@   loop 0 invariant bounds: -1 <= rangeindex && rangeindex < len(model) && len(model) > 0
+//@   loop 0 invariant none: forall a int, b int :: 0 <= a && a <= rangeindex && 0 <= b && b < len(model[a].Votes) ==> model[a].Votes[b] != pubkey
+//@   loop 1 invariant bounds: -1 <= rangeindex && (rangeindex < len(price.Votes) || (rangeindex == -1 && len(price.Votes) == 0))
+//@   loop 1 invariant none: forall b int :: 0 <= b && b <= rangeindex ==> price.Votes[b] != pubkey
+//@   modifies mapof(c.list)
